@@ -147,7 +147,7 @@ def graphs(ctx):
     else:
         for mask in range(1 << 16):
             out.append((4, [p for k, p in enumerate(pairs4) if mask >> k & 1], 'exhaustive4'))
-    for _ in range(200 if ctx.quick() else 3000):
+    for _ in range(200 if ctx.quick() else 40000):
         n = rng.randint(5, 12)
         m = rng.randint(0, 2 * n)
         es = list({(rng.randrange(n), rng.randrange(n)) for _ in range(m)})
